@@ -206,6 +206,37 @@ TraceHandleRace ==
         /\ Follow(e, <<>>)
   /\ UNCHANGED <<C, issued>>
 
+\* Two consumers, one per handle on the same database, poll at the same instant.  Lease exclusivity across handles: the two
+\* answers share no message and no lease id, every message handed out was ready (after the prune / sweep either handle may
+\* run; a fresh handle's throttles are zero), and it is held afterwards under exactly the lease id its consumer was given.
+TraceHandleDeq ==
+  /\ IsEvent("HandleDeq")
+  /\ LET e   == Trace[l]
+         a1  == e.a.first
+         a2  == e.a.second
+         i1  == e.r.first.items
+         i2  == e.r.second.items
+         g1  == {i1[k].id : k \in DOMAIN i1}
+         g2  == {i2[k].id : k \in DOMAIN i2}
+         l1  == {i1[k].lease : k \in DOMAIN i1}
+         l2  == {i2[k].lease : k \in DOMAIN i2}
+         pres == DeqPre(C, S, e.now) \cup DeqPre(C, [S EXCEPT !.ls = 0, !.lp = 0], e.now)
+         held(it, ttl) == /\ it.id \in DOMAIN e.post
+                          /\ e.post[it.id].st = "leased" /\ e.post[it.id].lease = it.lease
+                          /\ e.post[it.id].until = e.now + EffTTL(ttl) /\ it.until = e.post[it.id].until
+     IN /\ Chk("err", e.r.first.err = "" /\ e.r.second.err = "")
+        /\ Chk("exclusive", g1 \cap g2 = {} /\ Cardinality(g1) = Len(i1) /\ Cardinality(g2) = Len(i2))
+        /\ Chk("fresh", /\ (l1 \cup l2) \cap issued = {} /\ l1 \cap l2 = {} /\ "" \notin (l1 \cup l2)
+                        /\ Cardinality(l1) = Len(i1) /\ Cardinality(l2) = Len(i2))
+        /\ Chk("ready", \E p \in pres : /\ g1 \subseteq Ready(p.msgs, a1.rt, a1.tg, e.now)
+                                         /\ g2 \subseteq Ready(p.msgs, a2.rt, a2.tg, e.now))
+        /\ Chk("batch", Len(i1) <= EffBatch(a1.batch) /\ Len(i2) <= EffBatch(a2.batch))
+        /\ Chk("holder", (\A k \in DOMAIN i1 : held(i1[k], a1.ttl)) /\ (\A k \in DOMAIN i2 : held(i2[k], a2.ttl)))
+        /\ Generic(e, "dequeue", <<>>)
+        /\ issued' = issued \cup l1 \cup l2
+        /\ Follow(e, <<>>)
+  /\ UNCHANGED C
+
 TraceMutateFilter ==
   /\ IsEvent("MutateFilter")
   /\ LET e    == Trace[l]
@@ -339,7 +370,7 @@ TraceStats ==
 
 Next ==
   \/ TraceReset \/ TraceTick \/ TraceReopen \/ TraceEnqueue \/ TraceDequeue \/ TraceLeaseOp \/ TraceLeaseBatch
-  \/ TraceMutateIds \/ TraceHandleRace \/ TraceMutateFilter \/ TraceFilterSelect \/ TraceFilterApply \/ TraceListMessages \/ TraceListDead \/ TraceLookup \/ TraceStats
+  \/ TraceMutateIds \/ TraceHandleRace \/ TraceHandleDeq \/ TraceMutateFilter \/ TraceFilterSelect \/ TraceFilterApply \/ TraceListMessages \/ TraceListDead \/ TraceLookup \/ TraceStats
 
 Spec == Init /\ [][Next]_vars
 
